@@ -155,70 +155,116 @@ Inductive stepspec :=
   | SEval (c : cfg) (script : list req)
   | SOpt (c : cfg) (script : list req) (inner : option (cfg * list (list req))).
 
-(* evaluation events of a step -> program; the nested runs (one per outer evaluation) are placed
-   before the START_EVALUATION of their outer request (_optimizer_callback runs the nested
-   optimizer first) *)
-Fixpoint items (sid : nat) (evs : list evt) (inners : list prog) : prog :=
+(* evaluation events of a step -> program: every START_EVALUATION is followed by the evaluator call *)
+Fixpoint items (sid : nat) (evs : list evt) : prog :=
   match evs with
   | [] => PSkip
-  | StartEval :: t =>
-      match inners with
-      | ip :: rest => PSeq ip (PSeq (PEmit sid StartEval) (PSeq PCall (items sid t rest)))
-      | [] => PSeq (PEmit sid StartEval) (PSeq PCall (items sid t []))
-      end
-  | e :: t => PSeq (PEmit sid e) (items sid t inners)
+  | StartEval :: t => PSeq (PEmit sid StartEval) (PSeq PCall (items sid t))
+  | e :: t => PSeq (PEmit sid e) (items sid t)
   end.
 
 Definition is_eval_evt (e : evt) : bool := match e with StartEval | FinEval => true | _ => false end.
 Definition inner_sid : nat := 100.
 
-Definition compile_inner (ic : cfg) (script : list req) : option prog :=
-  match run ic script 0 None with
-  | (Exit ex, _, evs, _) => Some (PStep inner_sid SKOpt ex (items inner_sid evs []))
-  | (Raise, _, _, _) => None
+(* trace of an outer step with a nested optimization: every nested run is a complete run_step of the
+   inner plan's step, placed before the START_EVALUATION of its outer request *)
+Fixpoint titems (sid : nat) (t : list tr) : option prog :=
+  match t with
+  | [] => Some PSkip
+  | TE StartEval :: t' => option_map (fun q => PSeq (PEmit sid StartEval) (PSeq PCall q)) (titems sid t')
+  | TE e :: t' => option_map (PSeq (PEmit sid e)) (titems sid t')
+  | TInner (Exit ex) evs :: t' => option_map (PSeq (PStep inner_sid SKOpt ex (items inner_sid evs))) (titems sid t')
+  | TInner Raise _ :: _ => None
   end.
 
-Fixpoint all_some {A} (l : list (option A)) : option (list A) :=
-  match l with
-  | [] => Some []
-  | Some x :: t => match all_some t with Some r => Some (x :: r) | None => None end
-  | None :: _ => None
-  end.
-
-Definition compile_step (sid : nat) (s : stepspec) : option prog :=
+(* has = the nested plan's tracker already holds a result (it survives from step to step) *)
+Definition compile_step (sid : nat) (s : stepspec) (has : bool) : option (prog * bool) :=
   match s with
   | SEval c script =>
       match script with
       | r :: _ =>
           match run_evaluator_step c r with
-          | (Exit ex, _, evs) => Some (PStep sid SKEval ex (items sid (filter is_eval_evt evs) []))
+          | (Exit ex, _, evs) => Some (PStep sid SKEval ex (items sid (filter is_eval_evt evs)), has)
           | (Raise, _, _) => None
           end
       | [] => None
       end
-  | SOpt c script inner =>
+  | SOpt c script None =>
       match run c script 0 None with
-      | (Exit ex, _, evs, _) =>
-          match inner with
-          | None => Some (PStep sid SKOpt ex (items sid evs []))
-          | Some (ic, scripts) =>
-              match all_some (map (compile_inner ic) scripts) with
-              | Some ips => Some (PStep sid SKOpt ex (items sid evs ips))
-              | None => None
-              end
+      | (Exit ex, _, evs, _) => Some (PStep sid SKOpt ex (items sid evs), has)
+      | (Raise, _, _, _) => None
+      end
+  | SOpt c script (Some (ic, scripts)) =>
+      if negb (length scripts =? length script) then None else     (* one nested script per outer request *)
+      match run_nested c ic (combine script scripts) 0 None has with
+      | (Exit ex, _, t, (_, has')) =>
+          match titems sid t with
+          | Some body => Some (PStep sid SKOpt ex body, has')
+          | None => None
           end
       | (Raise, _, _, _) => None
       end
   end.
 
-Fixpoint compile_steps (i : nat) (l : list stepspec) : option (list prog) :=
+Fixpoint compile_steps (i : nat) (l : list stepspec) (has : bool) : option (list prog) :=
   match l with
   | [] => Some []
   | s :: t =>
-      match compile_step i s, compile_steps (S i) t with
-      | Some p, Some ps => Some (p :: ps)
-      | _, _ => None
+      match compile_step i s has with
+      | Some (p, has') =>
+          match compile_steps (S i) t has' with Some ps => Some (p :: ps) | None => None end
+      | None => None
       end
+  end.
+
+(* ---- specification of the run in which nobody aborts ------------------------------ *)
+Definition block (rc : list nat) (sid : nat) (e : evt) : list entry := map (fun r => Deliv r sid e) rc.
+
+(* the unaborted delivery log of a program: every event is delivered once to its full recipient list *)
+Fixpoint trace (w : world) (p : prog) : list entry :=
+  match p with
+  | PSkip => []
+  | PEmit sid e => block (recipients w (level_of sid)) sid e
+  | PCall => [Call]
+  | PSeq p q => trace w p ++ trace w q
+  | PStep sid sk _ body =>
+      block (recipients w (level_of sid)) sid (start_of sk) ++ trace w body ++
+      block (recipients w (level_of sid)) sid (fin_of sk)
+  end.
+(* exit codes of the run_step calls of the unaborted run, in completion order *)
+Fixpoint rets (p : prog) : list (nat * code) :=
+  match p with
+  | PSeq p q => rets p ++ rets q
+  | PStep sid _ ex body => rets body ++ [(sid, ex)]
+  | _ => []
+  end.
+
+(* exit codes returned when entry number j of the program's own trace aborts: run_step calls completed
+   before keep their code, every step whose span contains j returns USER_ABORT (innermost first),
+   later run_step calls do not happen *)
+Fixpoint arets (w : world) (p : prog) (j : nat) : list (nat * code) :=
+  match p with
+  | PSeq p q =>
+      if j <? length (trace w p) then arets w p j else rets p ++ arets w q (j - length (trace w p))
+  | PStep sid sk _ body =>
+      let nb := length (recipients w (level_of sid)) in
+      (if j <? nb then []
+       else if j <? nb + length (trace w body) then arets w body (j - nb)
+       else rets body) ++ [(sid, UserAbort)]
+  | _ => []
+  end.
+
+(* the same for a sequence of run_step calls on the outermost plan: after the aborted step every
+   further run_step raises PlanAborted *)
+Definition step_sid (p : prog) : nat := match p with PStep s _ _ _ => s | _ => 0 end.
+Definition exits (x : list (nat * code)) : list (nat * ret) := map (fun sc => (fst sc, RExit (snd sc))) x.
+Definition refused (ps : list prog) : list (nat * ret) := map (fun p => (step_sid p, RPlanAborted)) ps.
+Fixpoint top_rets (w : world) (ps : list prog) (j : nat) : list (nat * ret) :=
+  match ps with
+  | [] => []
+  | p :: t =>
+      if j <? length (trace w p) then exits (arets w p j) ++ refused t
+      else exits (rets p) ++ top_rets w t (j - length (trace w p))
   end.
 
 (* ---- well-formedness used by the theorems ---------------------------------------- *)
@@ -228,11 +274,12 @@ Fixpoint ids (p : prog) : list nat :=
   | PStep sid _ _ body => sid :: ids body
   | _ => []
   end.
-(* a step never contains a step with its own id *)
+(* a step never contains a step with its own id; START_/FINISHED_ step events come from PStep only *)
 Fixpoint wf (p : prog) : Prop :=
   match p with
   | PSeq p q => wf p /\ wf q
   | PStep sid _ _ body => ~ In sid (ids body) /\ wf body
+  | PEmit _ e => is_start e = false /\ is_fin e = false   (* step events are emitted by PStep only *)
   | _ => True
   end.
 (* no step ends with USER_ABORT of its own accord (aborts come from the abort index only) *)
@@ -241,4 +288,19 @@ Fixpoint quiet (p : prog) : Prop :=
   | PSeq p q => quiet p /\ quiet q
   | PStep _ _ ex body => ex <> UserAbort /\ quiet body
   | _ => True
+  end.
+
+(* boolean versions, evaluated by the checker on every compiled scenario *)
+Fixpoint wfb (p : prog) : bool :=
+  match p with
+  | PSeq p q => wfb p && wfb q
+  | PStep sid _ _ body => negb (existsb (Nat.eqb sid) (ids body)) && wfb body
+  | PEmit _ e => negb (is_start e) && negb (is_fin e)
+  | _ => true
+  end.
+Fixpoint quietb (p : prog) : bool :=
+  match p with
+  | PSeq p q => quietb p && quietb q
+  | PStep _ _ ex body => negb (is_abort ex) && quietb body
+  | _ => true
   end.
